@@ -1,5 +1,6 @@
 import OpcuaVerif.Lemmas.EncRT
 import OpcuaVerif.Lemmas.EncSoundRec
+import OpcuaVerif.Lemmas.EncSchemaRT
 
 /-!
 C03 — Configured decoding limits are enforced exactly.  Property theorems only.
@@ -190,5 +191,21 @@ example : (decDV { Opts.default with maxStr := 1 } 65535 true 10 0 (encDV true s
 /-- a chunk header `MSG F size=20 chan=1` -/
 example : decChunkHeader [77, 83, 71, 70, 20, 0, 0, 0, 1, 0, 0, 0, 9] = .ok ([77, 83, 71], 70, 20, 1) [9] := by
   rfl
+
+/-! ### arrays of generated structures (`read_array`, schema-directed decoder) -/
+
+/-- an array field of any generated structure (any element schema) that declares more than
+`max_array_length` elements is rejected before allocation, whatever follows -/
+theorem struct_array_over_limit (o : Opts) (cap fuel : Nat) (t : Ty) (d n : Nat) (rest : Bytes)
+    (hn : n < 2147483648) (hover : n > o.maxArr) : decS o cap fuel (.arr t) d (le32 n ++ rest) = .err := by
+  simp only [decS, rd32_le32 n rest (by omega)]
+  rw [if_neg (by omega), if_neg (by omega), if_pos hover]
+
+/-- … and every valid value of every schema whose arrays, strings and byte strings are within the
+limits is accepted and exactly consumed (the generic round trip of C01) -/
+theorem struct_within_limits_accepted (o : Opts) (cap : Nat) (hc : CapOK o cap) (t : Ty) (v : SVal)
+    (fuel : Nat) (r : Bytes) (hw : WFS o 0 t v) (hf : frS v ≤ fuel) :
+    decS o cap fuel t 0 (encS t v ++ r) = .ok (normS v) r :=
+  rtS o cap fuel hc v t 0 r hw hf
 
 end OpcuaVerif.C03
